@@ -6,7 +6,10 @@ ROOT = os.path.dirname(os.path.dirname(os.path.abspath(__file__)))
 EXTRA = {"c01-frag-result-last-datagram": ["C07"], "c02-partial-reset-moved-to-close": ["C07"],
          "c08-partial-reset-moved-to-close": ["C07"], "c05-udp-oserror-retry-unbounded": ["C04"],
          "c14-battery2-mapped-after-refusal": ["C15"], "c12-enuml-ffff-to-zero": ["C13"],
-         "c09-tcp-duplicate-exception-frame": ["C04"], "c02-aa55-checksum-overflow": ["C04", "C01"]}
+         "c09-tcp-duplicate-exception-frame": ["C04"], "c02-aa55-checksum-overflow": ["C04", "C01"],
+         "c12-r3-battery2-mapped-after-refusal": ["C14", "C15"], "c17-r2-dt-class-level-settings-map": ["C20"],
+         "c03-r3-class-level-read-command-cache": ["C20"], "c10-r2-tcp-orphaned-timer-after-fragment": ["C05"],
+         "c07-r2-fragment-timer-handle-dropped": ["C05"], "c06-r2-rtu-short-guard-7": ["C07"]}
 only = sys.argv[1:]
 for d in sorted(glob.glob(os.path.join(ROOT, "seeded", "[!_]*"))):
     name = os.path.basename(d)
